@@ -26,7 +26,8 @@
 From Coq Require Import List NArith Bool.
 From Delb.Base Require Import PyStr PyStrFacts.
 From Delb.Tree Require Import ATree.
-From Delb.Xml Require Import Doc DocFacts DocGen.
+From Delb.Gen Require GenDoc.
+From Delb.Xml Require Import Doc DocFacts DocGenFacts.
 Import ListNotations.
 Open Scope N_scope.
 
